@@ -1520,10 +1520,87 @@ def check_revocation_lookup(ctx, f, which, rule="R-GRD"):
                   r"^Result::unwrap\(CrlEntry::take_opt_from\(%2\)\)↓Some\.0\.user_certificate == \^$"]
         ok = len(trues) == 1 and len(trues[0]) == 2 and all(re.match(w, g) for w, g in zip(want_t, trues[0])) and \
             len(falses) == 1 and falses[0] == ["discr(Result::unwrap(CrlEntry::take_opt_from(%2))) in {0}"]
+        if not ok:
+            alt = _lookup_by_flag(f, b, s)
+            if alt is not None:
+                ok, extra = alt
+                trues = trues or [extra]
         ctx.ob(rule, "%s::RevokedCertificates::contains:decision" % which.split("::")[-1], ok,
                "the revocation lookup returns true exactly when an entry's serial equals the requested one, false when the list "
                "is exhausted; no other condition takes part", where=b.loc, detail={"true_under": trues, "false_under": falses})
     ctx.floor(rule, "%s revocation lookups" % which, n, 1)
+
+
+def _lookup_by_flag(f, b, s):
+    """The same decision kept in a flag: `let mut found = false; while !found { match next { Some(e) => found = (e.serial
+    == wanted), None => break } } Ok(found)`.  Decided on the flag's reaching definitions: the answer is the flag; the
+    flag is only ever the constant false or the value of the serial equality; once an equality has been stored the next
+    store is reachable only over an edge on which the flag is false (so a later entry cannot overwrite a hit); and the
+    initial false reaches the answer only over the list-exhausted edge or through an equality store.
+    -> (ok, description) or None when the function does not have this shape."""
+    EQ = re.compile(r"^(?:PartialEq::eq\((?:\^|%\d), Result::unwrap\(CrlEntry::take_opt_from\(%2\)\)↓Some\.0\.user_certificate\)|"
+                    r"PartialEq::eq\(Result::unwrap\(CrlEntry::take_opt_from\(%2\)\)↓Some\.0\.user_certificate, (?:\^|%\d)\))$")
+    rets = []
+    for bi, blk in enumerate(b.blocks):
+        for st in blk["stmts"]:
+            if st["s"] == "assign" and st["pl"]["l"] == 0 and not st["pl"]["p"]:
+                rets.append((bi, strip_deep(s.rvalue(st["rv"]))))
+    if len(rets) != 1 or rets[0][1][0] != "agg" or not str(rets[0][1][2]).endswith("Ok") or len(rets[0][1][3]) != 1:
+        return None
+    flag = strip_deep(rets[0][1][3][0][1])
+    if flag[0] != "var":
+        return None
+    fl = flag[2]
+    inits, stores, other = [], [], []
+    for db, val in s.defs_of_var(fl):
+        v = strip_deep(val)
+        r = alpha(render(v), b)
+        if v[0] == "const" and v[1] in (0, False):
+            inits.append(db)
+        elif EQ.match(r):
+            stores.append(db)
+        else:
+            other.append(r[:120])
+    if other or not stores or not inits:
+        return (False, {"flag": flag[1], "other_definitions": other})
+    # edges on which the flag is known false / the list is known exhausted
+    flag_false, flag_true, exhausted = set(), set(), set()
+    for bi, blk in enumerate(b.blocks):
+        t = blk["term"]
+        if t["t"] != "switch" or blk.get("cleanup"):
+            continue
+        d = strip_deep(s.operand(t["discr"]))
+        neg = False
+        while d[0] == "un" and d[1] == "Not":
+            d, neg = strip_deep(d[2]), not neg
+        if d[0] == "var" and d[2] == fl and t.get("dty") == "bool":
+            for v, tb in b.switch_edges(bi):
+                is_true_edge = (v is None) if any(x == 0 for x, _ in b.switch_edges(bi)) else (v == 1)
+                val = is_true_edge != neg
+                if not val:
+                    flag_false.add((bi, tb))
+                else:
+                    flag_true.add((bi, tb))
+        if d[0] == "discr" and re.search(r"take_opt_from\(%2\)", alpha(render(d[1]), b)):
+            for v, tb in b.switch_edges(bi):
+                if v == 0:
+                    exhausted.add((bi, tb))
+    # (1) after a store, the next store is only reachable over a flag-is-false edge
+    overwrite = []
+    for sb in stores:
+        for nxt in b.succs(sb):
+            reach = b.reachable(nxt, removed_edges=flag_false)
+            if any(x in reach for x in stores):
+                overwrite.append(b.line_of(sb))
+    # (2) the initial false answers only when the list is exhausted (or after a store)
+    early = []
+    for ib in inits:
+        # (no store passed, so the flag is still false: its true edges are infeasible)
+        reach = b.reachable(ib, removed_blocks=set(stores), removed_edges=exhausted | flag_true)
+        if rets[0][0] in reach and ib not in stores:
+            early.append(b.line_of(ib))
+    ok = not overwrite and not early
+    return (ok, {"flag": flag[1], "a_hit_can_be_overwritten_from_line": overwrite, "false_answered_before_the_list_ends_from_line": early})
 
 
 def check_text_impls_escape(ctx, f, rule="R-CHK"):
